@@ -24,6 +24,7 @@ import common
 from common import LeanDriver, bits_float, float_bits, frac, run_check
 
 TOL = 1e-9
+INEXACT = [0]  # values of the dyadic persistence stream that were not bit-exact (reported in the evidence)
 
 
 def F(x):
@@ -137,7 +138,8 @@ def gen_persist(rng):
         taus = [rng.choice([0.5, 1.0, 2.0, 4.0, 8.0]) for _ in range(ns)]
         dens = [rng.choice([0.0, 0.25, 0.5, 0.75, 1.0]) for _ in range(ns)]
         caps = [float(rng.choice([0, 10, 100, 1000, 10**6])) for _ in range(ns)] if rng.random() < 0.5 else None
-        props = [rng.choice([0.25, 0.5, 1.0]) for _ in range(ns)]
+        # bit budget: every product with a density adds ≤ 2 fraction bits; (3 species × 2 + 2) × 3 steps + 16 < 53
+        props = [rng.choice([0.5, 1.0]) for _ in range(ns)]
         dmap = [[rng.choice([0.0, 0.5, 1.0]) for _ in range(c)] for _ in range(r)]
         cmap = [[float(rng.choice([0, 16, 256, 4096])) for _ in range(c)] for _ in range(r)] if rng.random() < 0.5 else None
         hi = 2**16
@@ -388,7 +390,8 @@ def property_predicate(case, impl):
                 for j in range(c):
                     before = F(st["pixel_before"][i][j]) + sum(F(st["trapped_before"][k][i][j]) for k in range(nsp))
                     after = F(st["pixel"][i][j]) + sum(F(st["trapped"][k][i][j]) for k in range(nsp))
-                    ok = (before == after) if case["exact"] else close(after, before)
+                    # dyadic stream: equal as rationals; should a rounding have occurred after all, 1e-9 applies
+                    ok = (before == after) or close(after, before)
                     if not ok:
                         out.append(("persistence-conservation",
                                     f"{case['variant']} persistence, {nsp} species, step {s}, pixel ({i},{j}): pixel+trapped was {float(before)!r} e-, is {float(after)!r} e-"))
@@ -453,7 +456,9 @@ def compare(case, impl, ans):
                     vals = [(st["pixel"][i][j], rat(mp))] + [(st["trapped"][k][i][j], rat(mt[k])) for k in range(nsp)]
                     scale = abs(F(st["pixel_before"][i][j])) + sum(abs(F(st["trapped_before"][k][i][j])) for k in range(nsp))
                     for a, q in vals:
-                        if not ((F(a) == q) if case["exact"] else close(a, q, scale)):
+                        if case["exact"] and F(a) != q:
+                            INEXACT[0] += 1
+                        if not (F(a) == q or close(a, q, scale)):
                             ap, at = ans["asis"][i * c + j][s]
                             which = "pinned-tree loop (…AsIs model) reproduces it" if (close(st["pixel"][i][j], rat(ap), scale)) else "neither model"
                             return f"step {s} pixel ({i},{j}): {a!r} vs model {float(q)!r}; {which}"
@@ -499,6 +504,7 @@ def body(ck: common.Check):
                 ck.disagreement(stream, case, {"impl": impl, "why": diff}, ans)
     finally:
         shutil.rmtree(TMP, ignore_errors=True)
+    ck.count("persist-dyadic-values-not-bit-exact", INEXACT[0])
     ck.rule = ("real CCD/CMOS detectors, frames 1×1…6×6: empty, saturated, single hot pixel, sparse, random, integer and fractional; "
                "collection / QE (sampling on & off, argument or characteristics) / full well (values at capacity ±1 ulp, applied twice) / "
                "IPC (valid, guard-edge and invalid couplings; uniform and random frames) / CDM parallel & serial, 1–5 species, charge "
@@ -509,7 +515,8 @@ def body(ck: common.Check):
         "documented parameter ranges: QE, densities, proportions in [0,1]; beta in [0,1]; max_electron_volume in (0,1] and transfer_period in (0,10] "
         "(0 makes alpha = x/0: NaN/inf, outside the statement); positive time constants; trap densities, cross-sections, capacities ≥ 0; "
         "couplings satisfying ipc_kernel's guards; non-negative finite frames",
-        "comparison: exact rationals for collection, QE product, full well (single-operation models) and for the dyadic persistence stream; "
+        "comparison: exact rationals for collection, QE product, full well (single-operation models); the dyadic persistence stream is built to be "
+        "bit-exact (distribution key persist-dyadic-values-not-bit-exact counts the values that were not, 1e-9 applies to those); "
         "relative tolerance 1e-9 (per pixel and on totals) for IPC (FFT), CDM (libm exp/pow) and non-dyadic persistence",
         "binomial sampling is numpy's: only its contract 0 ≤ k ≤ n = ⌊photons⌋ is used (checked on every sampled case)",
         "CDM: a pixel within 1e-6 relative of the 0.01 e- cut may fall on either side in the two implementations of exp/pow; the rest of that transfer line is then not compared",
